@@ -53,6 +53,8 @@ def _level_of(b, op):
 
 
 def span_expansion_rules(chk, pid):
+    if chk._overlay:
+        return  # the corpus is compiled in one configuration only
     P = corpus()
     chk.use_program(P)
     sites = []
@@ -165,6 +167,8 @@ def _template_of_parts(P, const_key):
 
 
 def template_rules(chk, pid):
+    if chk._overlay:
+        return  # the corpus is compiled in one configuration only
     P = corpus()
     chk.use_program(P)
     n = 0
@@ -218,6 +222,8 @@ def _elements(b, c):
 
 
 def capture_rules(chk, pid):
+    if chk._overlay:
+        return  # the corpus is compiled in one configuration only
     P = corpus()
     chk.use_program(P)
     n = 0
